@@ -47,10 +47,6 @@ func genScript(r *gen.Rand, api string, c cfgIn, ids []string, own string) []str
 				sc = append(sc, "B"+pickID())
 				alive, destroyed = true, false
 			default:
-				if api == "s" {
-					sc = append(sc, "G")
-					alive, destroyed = true, false
-				}
 			}
 			continue
 		}
@@ -93,9 +89,8 @@ func genScript(r *gen.Rand, api string, c cfgIn, ids []string, own string) []str
 				sc = append(sc, "W")
 			}
 		case 18:
-			if api == "s" && r.Chance(1, 3) {
-				sc = append(sc, "G")
-				destroyed = false
+			if api == "m" && r.Chance(1, 3) {
+				sc = append(sc, "G") // behind the middleware: ErrSessionAlreadyLoadedByMiddleware
 			}
 		default:
 			sc = append(sc, "I", "g"+gen.Hex(gen.Pick(r, keysV)))
